@@ -19,7 +19,7 @@ INFO = {
     "reference computes from the reference derivation tree of the hand-desugared BNF with the documented semantics "
     "(action gets the sub-results of its RHS in order, named matches bound, right alternative's action; default = "
     "nested list; x+ flat list, x* possibly empty list, x? match or None, separators dropped).",
-    "bounds": {"quick": {"N": 5, "skeletons": 10}, "thorough": {"N": 7, "skeletons": 10}},
+    "bounds": {"quick": {"N": 5, "skeletons": 10}, "thorough": {"N": 6, "skeletons": 10}},
     "outside": "inputs longer than N; action tables other than the listed skeletons; actions with side effects on the parser",
     "assumptions": ["get_context stubbed; realize-atomic marks", "reference derivation from refcfg on the hand-desugared grammar"],
 }
@@ -120,7 +120,7 @@ SK = {
 
 def cases(tier, seed):
     out = []
-    N = 5 if tier == "quick" else 7
+    N = 5 if tier == "quick" else 6
     for nm in SK:
         n_ = min(N, SK[nm].get("maxN", N)) if tier == "quick" else N
         out.append({"name": "%s|N=%d" % (nm, n_), "params": {"skel": nm, "N": n_}, "budget_s": 1500 if tier == "quick" else 6000})
